@@ -1,4 +1,5 @@
 import H2T.Render
+import H2T.Lemmas.RowExact
 
 /-! # C05 — table borders form a consistent box drawing
 
@@ -6,8 +7,13 @@ The horizontal rule of a table is a list of segments; vertical bars of the row a
 `join_above`, those of the row below with `join_below` (`BorderHoriz` in text_renderer.rs).  The theorems say
 that, whatever the order and multiplicity of the joins, the glyph printed at a position is exactly the one
 that matches "a bar stands above" and "a bar stands below".  Status: **partial** — the segment algebra is
-proved for every sequence of joins; that `appendColumns` calls the joins at exactly the bar positions of the
-neighbouring rows is covered by the correspondence and the grid oracle. -/
+proved for every sequence of joins; **for one side-by-side row** (any cells, nested tables included): every line the
+row adds — text lines and bottom rule — has exactly the same display width `Σ cell widths + (n − 1)`
+(`row_lines_same_width`), every cell's part of every line is exactly as wide as the cell, so the separators stand at
+the same x positions on every line of the row (`cell_part_exact`, `row_line_shape`), and the rule above/below the row
+gets its junctions at exactly the row's bar positions (`bars_join_the_rules`, `joined_positions`).  That all rows of a
+regular table have the same total width and the same bar positions (the column widths are fixed per table, but cells
+with colspans over zero-width columns break it: a known finding) is covered by the correspondence and the grid oracle. -/
 
 namespace H2T.C05
 
@@ -93,5 +99,62 @@ theorem joinBelow_length (b : Border) (x : Nat) (h : x < b.length) : (b.joinBelo
 example : ([Join.above, .below, .above].foldl (fun s j => j.apply s) Seg.straight).glyph = 0x253c := by decide
 example : (Border.joinBelow (Border.joinAbove (List.replicate 5 Seg.straight) 2) 4).map Seg.glyph
     = [0x2500, 0x2500, 0x2534, 0x2500, 0x252c] := by decide
+
+/-! ## one side-by-side row -/
+
+/-- **every line a side-by-side row adds has the same display width** `Σ cell widths + (n − 1)`: its text lines and (with
+    borders) its bottom rule; the earlier lines are kept (the last of them may have received junctions) -/
+theorem row_lines_same_width (s s' : SubR) (cfg : Cfg) (cols : List SubR) (h : s.Fits) (hc : ∀ c ∈ cols, c.Fits)
+    (he : s.appendColumns cfg cols = .ok s') :
+    ∃ (s1 : SubR) (added : List RLine), s'.lines = s1.lines ++ added ∧
+      (∀ l ∈ added, rlw l = (cols.map (·.width)).sum + (cols.length - 1)) ∧
+      (∃ s0, s.flushWrapping = .ok s0 ∧ s1.lines.length = s0.lines.length) :=
+  appendColumns_exact s s' cfg cols h hc he
+
+/-- **a cell's part of every line of its row is exactly as wide as the cell** (text padded, nested rule stretched, or
+    blank/vertical padding below a short cell) -/
+theorem cell_part_exact (ann : Tag) (i : Nat) (st : Nat × List RLine) (pad : Option (List Ch)) (hs : SetEq st) (hp : PadEq (st, pad)) :
+    lw (colLineBody ann i st pad) = st.1 := colLineBody_exact ann i st pad hs hp
+
+/-- …and a line of the row is the cells' parts with one separator between neighbours: with the previous theorem the
+    separators stand at the same x positions on every line -/
+theorem row_line_shape (ann : Tag) (sep : Ch) (i : Nat) (st : Nat × List RLine) (pad : Option (List Ch))
+    (q : (Nat × List RLine) × Option (List Ch)) (r : List ((Nat × List RLine) × Option (List Ch))) :
+    colLine ann sep i ((st, pad) :: q :: r) = colLineBody ann i st pad ++ [Elt.cell ⟨sep, ann⟩] ++ colLine ann sep i (q :: r) := rfl
+
+/-- **the rules above and below a row get their junctions at the row's bar positions**: the previous rule is joined from
+    below, the row's bottom rule from above, both at `barPositions` -/
+theorem bars_join_the_rules (s : SubR) (sets : List (Nat × List RLine)) (tot : Nat) (pb : Border) (t : Tag)
+    (h : s.lines.getLast? = some (.rule pb t)) :
+    s.joinBars sets tot = (some ((barPositions 0 sets).foldl Border.joinBelow pb),
+      (barPositions 0 sets).foldl Border.joinAbove (List.replicate tot Seg.straight)) := by
+  unfold SubR.joinBars; rw [h]
+
+/-- after joining at the positions `js`, position `x` records "a bar stands above" iff it did before or `x ∈ js` -/
+theorem joined_positions (js : List Nat) : ∀ (b : Border) (x : Nat), (∀ j ∈ js, j < b.length) → x < b.length →
+    ((js.foldl Border.joinAbove b)[x]?.map up) = some ((b[x]?.map up).getD false || decide (x ∈ js) && (b[x]?.map (fun sg => decide (sg ≠ Seg.vert))).getD false) := by
+  induction js with
+  | nil => intro b x _ hx; simp [hx]
+  | cons j js ih =>
+    intro b x hj hx
+    have hjl : j < b.length := hj j (by simp)
+    have hlen : (b.joinAbove j).length = b.length := joinAbove_length b j hjl
+    simp only [List.foldl_cons]
+    rw [ih (b.joinAbove j) x (fun k hk => by rw [hlen]; exact hj k (by simp [hk])) (by rw [hlen]; exact hx)]
+    have hget : (b.joinAbove j)[x]? = if x = j then b[x]?.map Seg.joinAbove else b[x]? := by
+      unfold Border.joinAbove Border.stretch
+      have : j + 1 - b.length = 0 := by omega
+      simp only [this, List.replicate_zero, List.append_nil, List.getElem?_modify]
+      by_cases hxj : x = j
+      · subst hxj; simp
+      · have : ¬ j = x := fun e => hxj e.symm
+        simp [hxj, this]
+    rw [hget]
+    have hbx : b[x]? = some b[x] := by simp [hx]
+    by_cases hxj : x = j
+    · subst hxj
+      simp only [if_true, hbx, Option.map_some, Option.getD_some, List.mem_cons, true_or, decide_true, Bool.true_and]
+      cases b[x] <;> simp [up, Seg.joinAbove]
+    · simp only [hxj, if_false, hbx, Option.map_some, Option.getD_some, List.mem_cons, false_or]
 
 end H2T.C05
